@@ -423,6 +423,7 @@ func run(id, tier string) int {
 	knownActive := map[string]bool{}
 	exhaustive := map[string]bool{}
 	var samples []json.RawMessage
+	perTest := map[string]int{}
 	var notes []string
 	evaluations, nontrivial := 0, 0
 	hashesCut := false
@@ -458,10 +459,12 @@ func run(id, tier string) int {
 					exhaustive[k] = v
 				}
 			}
-			if len(samples) < 10 {
+			// samples: a few per test function, so that every engine of the check is represented
+			if perTest[r.job.Test] < 3 && len(samples) < 14 {
 				for _, sm := range s.Samples {
-					if len(samples) < 10 {
+					if perTest[r.job.Test] < 3 && len(samples) < 14 {
 						samples = append(samples, sm)
+						perTest[r.job.Test]++
 					}
 				}
 			}
